@@ -565,11 +565,14 @@ func (x *G) misuseItem(depth int) *node {
 // items: a random list at nesting depth `depth`
 func (x *G) items(depth, maxDepth, width int) []*node {
 	r := x.r
-	n := r.Intn(width + 1)
+	n := r.Range(1, width)
+	if depth > 0 && r.Chance(1, 8) {
+		n = 0
+	}
 	var out []*node
 	for i := 0; i < n; i++ {
 		switch {
-		case depth < maxDepth && r.Chance(1, 3):
+		case depth < maxDepth && r.Chance(2, 5):
 			out = append(out, x.container(x.items(depth+1, maxDepth, width)))
 		case x.unwrite && len(out) > 0 && r.Chance(1, 6):
 			out = append(out, x.unwriteFor(out))
